@@ -509,6 +509,13 @@ func LD(rc *RC, floor int) {
 				rc.S.Ok("LD", key, r.pos, fmt.Sprintf("%d BLAS call path(s) conform", r.n))
 			} else {
 				d := uniq(r.diffs)
+				if fi := rc.P.Func(g.Key); fi != nil {
+					_, tree := sCanon(rc, fi)
+					if h := rc.NewHelperIn(ir.Render(tree)); h != "" {
+						rc.S.Undec("LD", key, r.pos, fmt.Sprintf("the gateway computes its BLAS arguments through %s(), a helper introduced since the reviewed tree, which the term propagation does not follow (%s)", h, d[0]))
+						continue
+					}
+				}
 				rc.S.Viol("LD", key, r.pos, fmt.Sprintf("with operands %s the BLAS call deviates from the reference: %s", ck, strings.Join(d, " | "))).Sig = strings.Join(d, " | ")
 			}
 		}
